@@ -311,6 +311,8 @@ impl<E> Topic<E> {
     pub open spec fn inv(&self) -> bool {
         &&& self.next_id + self.handle.budget() < usize::MAX        // fewer than 2^64 registrations per topic (stated assumption)
         &&& (self.server is Some ==> self.server->Some_0.1.src_id() == SRC_SERVER())
+        // requestor ids are never reused: every registered requestor sink has an id below the counter
+        &&& forall|k: usize| #[trigger] self.sink.view().contains_key(k) ==> k < self.next_id
     }
     pub open spec fn all_coop(&self) -> bool {
         &&& all_coop_m(self.sink.view())
@@ -389,6 +391,8 @@ pub open spec fn tagged(orig: MessagePayload, id: usize, out: MessagePayload) ->
                         // a request waiting for a bound replier is never overwritten
                         assert(self.buffered_req is None || self.server is None);                                        // [C02.request_not_dropped_while_bound]
                     }
+//@hint before "self.sink.insert(self.next_id, si);"
+                            proof { assert(!self.sink.view().contains_key(self.next_id)); }                             // [C02.requestor_ids_never_reused]
 //@hint before "self.buffered_err = Some((Some(error_payload), si));"
                             proof { assert(error_payload.code == 5); }                                                   // [C10.rejected_with_replier_already_bound]
 //@end
